@@ -21,6 +21,10 @@ class ReprUnit(Unit):
         return progs
     def gen(self, ctx, prog):
         return spec_repr.gen(prog)
+    def skip_verus(self, ctx, prog):
+        import re
+        if any(v.disc and re.search(r'<<|>>|/|%|\||&|\^', v.disc) for v in prog.variants):
+            return 'discriminant expressions with shift / division / bit operators are outside Verus\' const evaluation; decided by the Kani twin (every d of the repr type, bit-precise)'
     def kani_module(self, ctx, prog):
         return spec_repr.kani_module(prog)
     def kani_harnesses(self, ctx, prog):
